@@ -107,5 +107,24 @@ mut('c07-trainer-strips-value', 'C07', 'lib_trainer/save_pcfg_data.py', "datafil
 mut('c07-omen-loader-strip', 'C07', 'lib_guesser/omen/input_file_io.py', "line = line.rstrip('\\n\\r').split('\\t')", "line = line.strip().split('\\t')")
 mut('c07-valid-allows-nel', 'C07', TFI, 'if u"\\u0085" in input_password:', 'if False:')
 mut('c07-config-stale-filelist', ['C07', 'C06'], 'lib_trainer/config_file.py', 'filenames[i] = str(name) + ".txt"', 'filenames[i] = str(name if name < 7 else 7) + ".txt"')
+# ---- C11 / C18
+EP = 'lib_trainer/omen/evaluate_password.py'; OS_ = 'lib_scorer/omen_scorer.py'; IFI = 'lib_guesser/omen/input_file_io.py'
+mut('revert-F-C18-a', 'C18', EP, "if level_minus_ip >= 0:", "if level_minus_ip > 0:")
+mut('revert-F-C18-b', 'C18', EP, "if length < omen_trainer.ngram:", "if length <= omen_trainer.ngram:")
+mut('revert-F-C07b-c11', 'C11', OS_, "with open(full_file_path, 'r', encoding=self.encoding) as file:", "with open(full_file_path, 'r') as file:", nth=1)
+mut('c11-guesser-minsize', ['C11', 'C18'], IFI, "if (cur_length >= min_size):", "if (cur_length > min_size):")
+mut('c11-scorer-endpos', 'C11', OS_, "while end_pos <= pass_len:", "while end_pos < pass_len:")
+mut('c11-trainer-ln-index', 'C11', EP, "ln_level = omen_trainer.ln_lookup[pw_len - 1][0]", "ln_level = omen_trainer.ln_lookup[min(pw_len, omen_trainer.max_length - 1)][0]")
+mut('c11-scorer-maxlen', 'C11', OS_, "if pass_len < self.ngram or pass_len > self.max_len:", "if pass_len < self.ngram or pass_len >= self.max_len:")
+mut('c18-keyspace-cache-key', 'C18', EP, "if letter_level[0] == level:", "if letter_level[0] <= level:")
+mut('c18-prob-uses-total-lines', 'C18', 'lib_trainer/omen/omen_file_output.py', "percentage_cracked = num_instances / num_valid_passwords", "percentage_cracked = num_instances / (num_valid_passwords + 1)")
+mut('c11-levels-tally-off', 'C11', RT, "omen_levels_count[level] += 1", "omen_levels_count[max(level, 0)] += 1")
+# ---- C13
+PS = 'lib_scorer/pcfg_password_scorer.py'
+mut('c13-keyerror-to-small', 'C13', PS, "            cur_prob = 0", "            cur_prob = 1e-9")
+mut('c13-email-early-return-removed', 'C13', PS, "if category in ['e', 'w']:", "if category in ['w']:")
+mut('c13-mask-factor-dropped', 'C13', PS, "cur_prob *= self.count_alpha_masks[len(item)][item]", "cur_prob *= 1.0")
+mut('c13-history-dependence', 'C13', PS, "        omen_score = self.omen.parse(password)", "        omen_score = self.omen.parse(password); self.multiword_detector.train(password); self.multiword_detector.train(password)")
+mut('c13-category-w-for-email', 'C13', PS, "            category = 'e'", "            category = 'w'")
 json.dump(M, open(os.path.join(os.path.dirname(os.path.abspath(__file__)), 'mutants.json'), 'w'), indent=1)
 print(len(M), 'mutants')
